@@ -92,6 +92,32 @@ def main():
         slip = 2 * abs(float(kinv) ** 2 * complex(float(T[0]), float(T[1])) * float(dz) ** 3 / 6)
         if slip > 10 * float(r4):
             sharp += 1
+    # numerical and analytic mode must be the same quantity slot by slot: for uniform profiles the numerical field of a
+    # slot is closer to the closed form of the SAME slot than to that of any other requested level, whatever the order
+    # of the levels (a tolerance-free conformance check of the slot bookkeeping of the two branches - not an accuracy claim)
+    from . import realsolver as rs
+
+    rng = np.random.default_rng(seed() + 3)
+    nslot = 0
+    for fp in (False, True):
+        for lv in ([9, 3, 12], [15, 1], [4, 8, 2, 13], [6]):
+            c = {"nx": 12, "ny": 10, "ax": 2, "ay": 3, "halo": 6, "mx": 12, "my": 10, "xm": 8 if fp else 0, "ym": 9 if fp else 0, "fp": fp, "an": False, "nz": 16, "lv": lv}
+            kw = rs.solver_args(c, "const_aniso", "double")
+            q = rs.source(c, "smooth", rng)
+            _, pn, fn = rs.solve3(q, kw, srf_bg_conc=0.4)
+            _, pa, fa = rs.solve3(q, kw, srf_bg_conc=0.4, analytic=True)
+            for k in range(len(lv)):
+                nslot += 1
+                if len(lv) < 2:
+                    continue
+                for name, num, ana in (("flux", fn, fa), ("conc", pn, pa)):
+                    dist = [float(np.max(np.abs(num[k] - ana[j]))) for j in range(len(lv))]
+                    j = int(np.argmin(dist))
+                    if j != k:
+                        chk.violation("uniform profiles, levels=%s: the numerical %s in slot %d (node %d) is closest to the closed form of slot %d (node %d), not of its own slot"
+                                      % (lv, name, k, lv[k], j, lv[j]), {"kind": "numeric_vs_analytic_slot", "config": c, "slot": k}, klass={"check": "numeric_vs_analytic_slot"})
+                        break
+    chk.extra["numeric_vs_analytic_slots"] = nslot
     chk.traces += len(r.emitted)
     chk.extra["probe_points"] = len(r.emitted)
     chk.extra["probe_points_where_a_cubic_sign_slip_exceeds_10x_the_tolerance"] = sharp
